@@ -116,6 +116,68 @@ def gen_block(rng, depth, indent=""):
     return lines
 
 
+# families of directives whose handlers keep pattern / nesting bookkeeping across levels; a chain nests members of ONE family
+# 3-9 levels deep (the uniform generator above almost never produces e.g. tabs > tab > tabs > tab > procedure > step > procedure)
+FAMILIES = [
+    ["tabs", "tab", "procedure", "step"],
+    ["tabs", "tab", "procedure", "step", "note", "collapsible"],
+    ["method-selector", "method-option", "method-description", "tabs", "tab"],
+    ["wayfinding", "wayfinding-option", "wayfinding-description", "note"],
+    ["chapters", "chapter", "guide", "card-group", "card"],
+    ["ia", "entry", "card-group", "card"],
+    ["composable-tutorial", "selected-content", "procedure", "step", "tabs", "tab"],
+    ["collapsible", "facet", "banner", "contents", "procedure", "step"],
+    ["facet", "facet", "collapsible"],
+    ["multi-page-tutorial", "procedure", "step", "time", "contents"],
+]
+NEXT = {"tabs": ["tab"], "tab": ["tabs", "procedure", "tab"], "procedure": ["step"], "step": ["procedure", "tabs", "step"],
+        "method-selector": ["method-option"], "method-option": ["method-description", "tabs"], "chapters": ["chapter"],
+        "chapter": ["guide"], "card-group": ["card"], "ia": ["entry"], "composable-tutorial": ["selected-content"],
+        "selected-content": ["procedure", "tabs"], "wayfinding": ["wayfinding-option", "wayfinding-description"]}
+SPEC_BY_NAME = {row[0]: row for row in SPECIAL}
+
+
+def gen_chain(rng, indent=""):
+    fam = rng.choice(FAMILIES)
+    depth = rng.randint(3, 9)
+    cur = rng.choice(fam[:2])
+    levels = []
+    for _ in range(depth):
+        levels.append(cur)
+        nxt = NEXT.get(cur)
+        cur = rng.choice(nxt) if (nxt and rng.random() < 0.75) else rng.choice(fam)
+
+    def emit(i, ind):
+        if i == len(levels):
+            return [ind + rng.choice(INLINE), ""]
+        name, opts, args, content = SPEC_BY_NAME[levels[i]]
+        first = ind + f".. {name}::" + ((" " + rng.choice(args)) if rng.random() < 0.6 else "")
+        lines = [first.rstrip()]
+        ci = ind + "   "
+        for k, vs in opts.items():
+            if rng.random() < 0.6:
+                lines.append((ci + f":{k}: {rng.choice(vs)}").rstrip())
+        lines.append("")
+        if content is not True:
+            return lines
+        if rng.random() < 0.25:
+            lines += [ci + rng.choice(INLINE), ""]
+        lines += emit(i + 1, ci)
+        if rng.random() < 0.35 and i + 1 < len(levels):
+            # a sibling of the same kind as the nested one (second tab / step / option ...)
+            n2, o2, a2, c2 = SPEC_BY_NAME[levels[i + 1]]
+            sib = [(ci + f".. {n2}::" + ((" " + rng.choice(a2)) if rng.random() < 0.6 else "")).rstrip()]
+            for k, vs in o2.items():
+                if rng.random() < 0.6:
+                    sib.append((ci + "   " + f":{k}: {rng.choice(vs)}").rstrip())
+            sib.append("")
+            if c2 is True:
+                sib += [ci + "   " + rng.choice(INLINE), ""]
+            lines += sib
+        return lines
+    return emit(0, indent)
+
+
 def gen_ia(rng):
     urls = ["/page1", "/page2", "/page1.txt", "page1", "page2", "/guides/g1", "g1", "guides/g1", "/guides/g1.txt", "/nope", "https://x.y", "/index", "/page2/", "../page1"]
     lines = [".. ia::", ""]
@@ -134,7 +196,7 @@ def gen_page(rng, selfname=None):
     if rng.random() < 0.1:
         lines = [":orphan:", ""] + lines
     for _ in range(rng.randint(1, 6)):
-        lines += gen_block(rng, 0)
+        lines += gen_chain(rng) if rng.random() < 0.15 else gen_block(rng, 0)
         if selfname and rng.random() < 0.15:
             # a file that runs into its own include cycle more than once within one expansion
             lines += [f".. include:: /{selfname}", ""]
@@ -203,7 +265,8 @@ class C02(core.PropertyCheck):
     quick_budget = 2500
     thorough_budget = 40000
     rule = ("text-level projects: 1-3 pages + 0-2 include files (+ self/mutual includes, toctree cycles) assembled from every directive the "
-            "postprocessor special-cases with each option present/absent and arbitrary nesting, plus inline roles/substitutions/footnotes; "
+            "postprocessor special-cases with each option present/absent and arbitrary nesting, chains of 3-9 nested directives of one handler family "
+            "(tabs/tab/procedure/step, method-selector, wayfinding, chapters, ia, composable-tutorial, facets ...), plus inline roles/substitutions/footnotes; "
             "each file parsed by the real parser, then the real Postprocessor.run over all pages; plus event-walk cases (random synthetic trees) "
             "compared with the Lean model of EventParser. non-trivial = the project contains at least one special-cased directive")
     assumptions = [
